@@ -261,6 +261,8 @@ class ExprMixin:
             kind = "float" if "float" in (ka, kb) else "int"
         if sym == "/":
             kind = "float"
+        if sym == "*" and {ka, kb} & {"str"} and ({ka, kb} - {"str"}) <= {"int", "bool"}:
+            kind = "str"
         return Term("bin", (sym, a, b), kind=kind, node=node)
 
     def e_Compare(self, node: ast.Compare, fr: Frame) -> V:
